@@ -5,7 +5,8 @@ import CbiVerif.Model.CodeBase
 request  {"op":"codebase","fs":[{"p":"/abs","k":"f"|"d"|"l","t":"link text"}],"cwd":"/abs","roots":[spelling],
           "ignored":["root/relative/path"],"catchLoop":bool,"fuel":n,"queries":[spelling],"inserts":[spelling]}
 reply    {"wf":bool,"roots":[abs]|"loop","queries":[{"namei":kind,"canon":abs|null,"realpath":abs|"loop",
-          "contains":bool|"loop"}],"iter":[abs]|"loop","counted":…,"notlinks":…,"cache":[abs]} -/
+          "contains":bool|"loop"}],"walk":[abs] (the directories `__iter__` walks, in order),"iter":[abs]|"loop" (in the order of the
+          enumeration: walked directory by walked directory),"counted":…,"notlinks":…,"cache":[abs]} -/
 open Lean
 namespace CbiVerif.Drv.CodeBase
 open CbiVerif.Path CbiVerif.FS CbiVerif.CB
@@ -64,6 +65,7 @@ def handle (j : Json) : Json :=
       ("wf", Json.bool (wf fs)),
       ("roots", Json.arr (roots.map fun c => Json.str (renderAbs c)).toArray),
       ("queries", Json.arr qs.toArray),
+      ("walk", Json.arr ((walkRoots roots).map fun c => Json.str (renderAbs c)).toArray),
       ("iter", listJson (iter cfg fs n roots)),
       ("counted", listJson (counted cfg fs n roots)),
       ("notlinks", listJson (notLinks cfg fs n roots)),
